@@ -104,7 +104,14 @@ harnesses! {
         let r = rx.try_recv_timeout(d);
         assert!(matches!(r, Ok(x) if x == v), "C10: message present during the wait must be returned");
         core::mem::forget(r);
+        // a message that was completely sent before the last sender went away is still returned by
+        // the timed receive (the wait sees data AND a hang-up), and only then the disconnection
+        let w: u8 = kani::any();
+        tx.send(w).unwrap();
         drop(tx);
+        let r = rx.try_recv_timeout(d);
+        assert!(matches!(r, Ok(x) if x == w), "C10: timed receive missed a message queued before the last sender was dropped");
+        core::mem::forget(r);
         let r = rx.try_recv_timeout(d);
         assert!(is_disc(&r), "C10: disconnection during the wait must be returned");
         core::mem::forget(r);
